@@ -477,8 +477,9 @@ func g4(c *fw.Ctx) {
 	}
 	// const groups whose repeated expression is evaluated again under other bindings: a later spec re-declares a name
 	// that the expression uses, or the expression uses an earlier member of the same group
-	c.Family("G4:repeat", "const groups with implicit repetition: 8 expressions over an outer constant k, iota and the first member x 4 name lists (fresh names, k re-declared as 2nd or 3rd member) x 3 placements x 3 kinds of outer k")
-	rexprs := []string{"k + 1", "k + iota", "k * 2 + iota", "-k", "[k, iota][0]", "string(k) + \"!\"", "k == 100", "a0 + k"}
+	c.Family("G4:repeat", "const groups with implicit repetition: 11 expressions (3 of them inside function and map literals) over an outer constant k, iota and the first member x 4 name lists (fresh names, k re-declared as 2nd or 3rd member) x 3 placements x 3 kinds of outer k")
+	rexprs := []string{"k + 1", "k + iota", "k * 2 + iota", "-k", "[k, iota][0]", "string(k) + \"!\"", "k == 100", "a0 + k",
+		"func() { return k + 1 }()", "func() { return func() { return -k }() }()", "{v: k + 1}.v"}
 	for _, e := range rexprs {
 		for _, names := range [][]string{{"b", "c2"}, {"k", "c2"}, {"b", "k"}, {"b", "c2", "k", "d"}} {
 			for place := 0; place < 3; place++ {
